@@ -12,7 +12,9 @@ DRIVERS = ["drv_cov"]
 RULE = ("CovMat/BandMat index maps for every dim 1..8 x band 0..dim-1 (exhaustive); band LDL' / Cholesky / forward "
         "substitution on SPD matrices L L' built from small integers, every band; Cluster::activeCov for EVERY active "
         "mask (dim <= 6, every band) plus random multi-dimensional observations; scaleCov at every position; "
-        "BlockDiagonal::cholDec + Homogenization sweep vs the dense path; malformed: indefinite, zero / negative "
+        "BlockDiagonal::cholDec + Homogenization sweep vs the dense path; the whole Homogenization::run on 1..5 blocks of dim "
+        "1..6 with every band width, unsorted sparse rows over 1..6 unknowns (empty rows, fill-in, exact zeros, repeated column "
+        "indices, not positive definite block first/middle/last); malformed: indefinite, zero / negative "
         "variance, exactly singular; <cov-mat> documents through gama-local. Distinct = distinct operation line; "
         "non-trivial = dim >= 2 (index maps: band >= 1; masks: at least one excluded and one active observation)")
 
@@ -245,6 +247,7 @@ def correspond(ctx, corr):
             corr.fail(f"implementation output of stream {stream} does not have the expected shape ({type(ex).__name__}: {ex})",
                       {"stream": stream, "ops": lines[:3]}, "c10_cov:" + stream, "\n".join(l[:200] for l in impl[i][:3]))
 
+    homrun_stream(ctx, corr, exe, drv)
     adj_stream(ctx, corr, exe)
     parse_stream(ctx, corr)
     net_stream(ctx, corr)
@@ -380,6 +383,436 @@ def oracle(ctx, corr, stream, lines, out, meta):
         if ret != (meta["bad_at"] or 0):
             corr.fail(f"BlockDiagonal::cholDec returned {ret}, expected {meta['bad_at'] or 0}", {"stream": stream, "ops": lines},
                       "BlockDiagonal::cholDec", out[0])
+
+
+# ------------------------------------------------------------------ Homogenization::run, all blocks at once
+#
+# op line:  homrunF m n nb | row_1: c v c v .. | .. | row_m | rhs | d b es.. | .. (nb blocks)     (Driver/Cov.lean opHomRun)
+# answer :  ok <total> pr <m> sm <rows> <cols> <rcnt> <ncnt> ptr <..> ind <..> val <..> | throw NonPositiveDefinite | refused
+# Everything the oracle needs is derived from the op line itself (corpus lines and replays carry no meta).
+
+HOMRUN_SITE = "Homogenization::run"
+
+
+def frac_sqrt(q):
+    import math
+    q = Fraction(q)
+    if q < 0:
+        return None
+    a, b = math.isqrt(q.numerator), math.isqrt(q.denominator)
+    return Fraction(a, b) if a * a == q.numerator and b * b == q.denominator else None
+
+
+def exact_chol(C):
+    """C = L L' exactly: ('ok', L) | ('notpd', row) | ('tiny', row) (0 < pivot < 1e-14: BlockDiagonal::cholDec's absolute
+    tolerance decides, no expectation) | ('irrational', None) (positive definite, factor not rational)"""
+    d = len(C)
+    l = [[Fraction(0)] * d for _ in range(d)]
+    D = [Fraction(0)] * d
+    for j in range(d):
+        dj = Fraction(C[j][j]) - sum(l[j][k] ** 2 * D[k] for k in range(j))
+        if dj <= 0:
+            return "notpd", j + 1
+        if dj < Fraction(1, 10 ** 14):
+            return "tiny", j + 1
+        D[j] = dj
+        l[j][j] = Fraction(1)
+        for i in range(j + 1, d):
+            l[i][j] = (Fraction(C[i][j]) - sum(l[i][k] * l[j][k] * D[k] for k in range(j))) / dj
+    sq = [frac_sqrt(x) for x in D]
+    if any(s is None for s in sq):
+        return "irrational", None
+    return "ok", [[l[i][j] * sq[j] for j in range(d)] for i in range(d)]
+
+
+def homrun_line(n, rows, rhs, blocks):
+    """rows: list of [(col, value)], blocks: list of (dim, band, dense C)"""
+    parts = [f"homrunF {len(rows)} {n} {len(blocks)}"]
+    parts += [" ".join(f"{c} {H(v)}" for c, v in r) for r in rows]
+    parts.append(" ".join(H(v) for v in rhs))
+    parts += [" ".join(cov_tokens(d, b, packed(C, b))) for d, b, C in blocks]
+    return " | ".join(parts)
+
+
+def homrun_parse(line):
+    g = [p.split() for p in line.split("|")]
+    m, n, nb = int(g[0][1]), int(g[0][2]), int(g[0][3])
+    if g[0][0] != "homrunF" or len(g) != 2 + m + nb:
+        raise ValueError("not a homrunF line")
+    rows = [[(int(r[k]), hex2float(r[k + 1])) for k in range(0, len(r), 2)] for r in g[1:1 + m]]
+    rhs = [hex2float(x) for x in g[1 + m]]
+    blocks = []
+    for bl in g[2 + m:]:
+        d, w = int(bl[0]), int(bl[1])
+        C = [[0.0] * d for _ in range(d)]
+        for (i, j), e in zip(band_pairs(d, w), bl[2:]):
+            C[i - 1][j - 1] = C[j - 1][i - 1] = hex2float(e)
+        blocks.append((d, w, C))
+    return m, n, rows, rhs, blocks
+
+
+def homrun_parse_out(o):
+    t = o.split()
+    ipr, ism, iptr, iind, ival = (t.index(k) for k in ("pr", "sm", "ptr", "ind", "val"))
+    return {"total": t[1], "pr": [hex2float(x) for x in t[ipr + 1:ism]],
+            "rows": int(t[ism + 1]), "cols": int(t[ism + 2]), "rcnt": int(t[ism + 3]), "ncnt": int(t[ism + 4]),
+            "ptr": [int(x) for x in t[iptr + 1:iind]], "ind": [int(x) for x in t[iind + 1:ival]],
+            "val": [hex2float(x) for x in t[ival + 1:]]}
+
+
+def homrun_norm(model_line):
+    """`total_scaled_nonzeroes` is not observable on the C++ side (harness prints `-`)"""
+    t = model_line.split()
+    if len(t) >= 2 and t[0] == "ok":
+        t[1] = "-"
+    return " ".join(t)
+
+
+def homrun_check(line, impl_o, model_o):
+    """the oracle on the implementation's answer `impl_o` for the op `line` (exact rational arithmetic) and the capacity
+    check on the model's `total`.  Returns (list of failure texts, dict of input-distribution counters)"""
+    fails, st = [], {}
+    m, n, rows, rhs, blocks = homrun_parse(line)
+    if any(c < 1 or c > n for r in rows for c, _ in r) or sum(b[0] for b in blocks) != m or len(rhs) != m:
+        st["refused"] = 1
+        if impl_o != "refused":
+            fails.append("undefined call (column index outside 1..n / m != sum of block dims / rhs size != m) not refused by the harness")
+        return fails, st
+    st["blocks_%d" % len(blocks)] = 1
+    for d, w, _ in blocks:
+        st["shape_%d_%d" % (d, w)] = 1
+    Ls, bad, skip_exact = [], None, False
+    for k, (d, w, C) in enumerate(blocks):
+        kind, L = exact_chol(C)
+        if kind == "notpd":
+            bad = k + 1
+            break
+        if kind == "tiny":
+            st["tiny_pivot_no_expectation"] = 1
+            return fails, st
+        if kind == "irrational":
+            skip_exact = True
+        Ls.append(L)
+    if bad is not None:
+        pos = "single" if len(blocks) == 1 else "first" if bad == 1 else "last" if bad == len(blocks) else "middle"
+        st["notpd_" + pos] = 1
+        if impl_o != "throw NonPositiveDefinite":
+            fails.append(f"covariance block {bad} of {len(blocks)} is not positive definite but the answer is `{impl_o[:60]}`")
+        return fails, st
+    if not impl_o.startswith("ok "):
+        fails.append(f"positive definite covariance blocks, answer `{impl_o[:60]}`")
+        return fails, st
+    st["ok"] = 1
+    o = homrun_parse_out(impl_o)
+    ptr, ind, val, ncnt = o["ptr"], o["ind"], o["val"], o["ncnt"]
+    if not (o["rows"] == m and o["cols"] == n and len(o["pr"]) == m and len(ptr) == m + 1 and ptr[0] == 0 and ptr[-1] == ncnt
+            and all(a <= b for a, b in zip(ptr, ptr[1:])) and len(ind) == ncnt and len(val) == ncnt):
+        fails.append("result is not a completely built m x n sparse matrix (rows/cols/ptr/ncnt inconsistent)")
+        return fails, st
+    if any(c < 1 or c > n for c in ind):
+        fails.append("(c) column index outside 1..n in the homogenised matrix")
+        return fails, st
+    out_rows = [list(zip(ind[ptr[r]:ptr[r + 1]], val[ptr[r]:ptr[r + 1]])) for r in range(m)]
+    # (e) capacity: the model's total_scaled_nonzeroes (the size of the arrays new Sparse(total,..) allocates)
+    want_total, r0 = 0, 0
+    for d, w, _ in blocks:
+        seg = rows[r0:r0 + d]
+        want_total += sum(len(r) for r in seg) if w == 0 else d * len({c for r in seg for c, _ in r})
+        r0 += d
+    mt = model_o.split()
+    if len(mt) >= 2 and mt[0] == "ok":
+        total = int(mt[1])
+        if total < ncnt:
+            fails.append(f"(e) capacity exceeded: total_scaled_nonzeroes {total} < {ncnt} stored elements")
+        if total != want_total:
+            fails.append(f"(e) model's total_scaled_nonzeroes {total} differs from the counting rule {want_total}")
+        if total > ncnt:
+            st["cases_capacity_not_filled"] = 1
+    dup = any(len({c for c, _ in r}) != len(r) for r in rows)
+    if dup:
+        st["dup_column_cases"] = 1
+    maxdev = Fraction(0)
+    r0 = 0
+    prev_cols = None
+    for k, (d, w, C) in enumerate(blocks):
+        seg = rows[r0:r0 + d]
+        colset = {c for r in seg for c, _ in r}
+        if w >= 1:
+            st["corr_blocks"] = st.get("corr_blocks", 0) + 1
+            if prev_cols is not None and prev_cols & colset:
+                st["adjacent_corr_shared_cols"] = 1
+            if any(len({c for c, _ in r}) != len(r) for r in seg):
+                st["dup_column_in_corr_block"] = 1
+            if any(C[i][i + 1] == 0 and C[i][i + 2] != 0 for i in range(d - 2)) and w >= 2:
+                st["zero_in_band_then_nonzero"] = 1
+            if len(colset) < n:
+                st["corr_block_missing_column"] = 1
+            if not colset:
+                st["corr_block_without_columns"] = 1
+        prev_cols = colset if w >= 1 else None
+        # dense block of A as the code reads it: a repeated column index is summed by every consumer of a sparse row in
+        # an uncorrelated block (both elements are kept), OVERWRITTEN in a correlated block (T(i,perm[c]) = *b++)
+        A = [[Fraction(0)] * (n + 1) for _ in range(d)]
+        for i, r in enumerate(seg):
+            for c, v in r:
+                A[i][c] = (A[i][c] if w == 0 else 0) + Fraction(v)
+        # (c) structure
+        if not dup:
+            if w == 0:
+                for i in range(d):
+                    if [c for c, _ in out_rows[r0 + i]] != [c for c, _ in seg[i]]:
+                        fails.append(f"(c) row {r0 + i + 1} (uncorrelated block {k + 1}): column indices differ from the input row")
+            else:
+                invp = []
+                for r in seg:
+                    for c, _ in r:
+                        if c not in invp:
+                            invp.append(c)
+                for i in range(d):
+                    cs = [c for c, _ in out_rows[r0 + i]]
+                    if len(set(cs)) != len(cs):
+                        fails.append(f"(c) row {r0 + i + 1} (correlated block {k + 1}): repeated column index {cs}")
+                    elif [c for c in invp if c in cs] != cs:
+                        fails.append(f"(c) row {r0 + i + 1} (correlated block {k + 1}): columns {cs} not in the order of first "
+                                     f"appearance {invp}")
+                    if any(v == 0 for _, v in out_rows[r0 + i]):
+                        fails.append(f"(c) row {r0 + i + 1} (correlated block {k + 1}): an exactly zero element is stored")
+        elif w >= 1:
+            st["dup_cases_oracle_c_skipped"] = 1
+        if not skip_exact:
+            L = Ls[k]
+            W = frac_inv(L)
+            # (d) generator sanity: W'W C = I
+            Wt_W = [[sum(W[t][i] * W[t][j] for t in range(d)) for j in range(d)] for i in range(d)]
+            if any(sum(Wt_W[i][t] * Fraction(C[t][j]) for t in range(d)) != (1 if i == j else 0) for i in range(d) for j in range(d)):
+                fails.append(f"(d) oracle's own factor of block {k + 1} is wrong (W'W C != I)")
+                return fails, st
+            # error scale of a forward substitution in floating point: |dy| <= c eps M^-1 |L| M^-1 |a| with the comparison
+            # matrix M of L (an entry of L^-1 may vanish by cancellation although the sweep passes through non-zero values)
+            Mi = frac_inv([[abs(L[i][j]) if i == j else -abs(L[i][j]) for j in range(d)] for i in range(d)])
+            ML = [[sum(Mi[i][t] * abs(L[t][j]) for t in range(d)) for j in range(d)] for i in range(d)]
+            Bnd = [[sum(ML[i][t] * Mi[t][j] for t in range(d)) for j in range(d)] for i in range(d)]
+            for i in range(d):
+                # (a) right-hand side
+                ex = sum(W[i][t] * Fraction(rhs[r0 + t]) for t in range(d))
+                sc = sum(Bnd[i][t] * abs(Fraction(rhs[r0 + t])) for t in range(d))
+                got = o["pr"][r0 + i]
+                dev = abs(Fraction(got) - ex) if got == got and abs(got) != float("inf") else None
+                if dev is None or dev > Fraction(1, 10 ** 12) * sc:
+                    fails.append(f"(a) pr({r0 + i + 1}) = {got!r}, exact (U^-T rhs) = {float(ex)!r}")
+                elif sc:
+                    maxdev = max(maxdev, dev / sc)
+                # (b) matrix
+                for c in range(1, n + 1):
+                    ex = sum(W[i][t] * A[t][c] for t in range(d))
+                    sc = sum(Bnd[i][t] * abs(A[t][c]) for t in range(d))
+                    gs = [v for cc, v in out_rows[r0 + i] if cc == c]
+                    if any(v != v or abs(v) == float("inf") for v in gs):
+                        fails.append(f"(b) sm({r0 + i + 1},{c}) is not finite")
+                        continue
+                    got = sum(Fraction(v) for v in gs)
+                    dev = abs(got - ex)
+                    if dev > Fraction(1, 10 ** 12) * sc:
+                        fails.append(f"(b) sm({r0 + i + 1},{c}) = {float(got)!r} (stored: {len(gs)}), exact (U^-T A) = {float(ex)!r}")
+                    elif sc:
+                        maxdev = max(maxdev, dev / sc)
+                    if w >= 1 and c in colset:
+                        if ex == 0:
+                            st["exact_zero_cells"] = st.get("exact_zero_cells", 0) + 1
+                            if not gs:
+                                st["cases_zero_dropped"] = 1
+                            if A[i][c] != 0:
+                                st["cases_cancellation_zero"] = 1
+                                if gs:
+                                    st["cancellation_zero_kept_as_rounding_noise"] = 1
+                        elif A[i][c] == 0:
+                            st["cases_fill_in"] = 1
+                        if sum(1 for t in range(d) if any(cc == c for cc, _ in seg[t])) == 1:
+                            st["cases_single_row_column"] = 1
+        else:
+            st["irrational_factor_exact_oracle_skipped"] = 1
+        r0 += d
+    st["_maxdev"] = float(maxdev)
+    return fails[:6], st
+
+
+def gen_homrun(rng, force=None, adjacent=False, notpd=None, dup=None):
+    """one op line.  force=(d,b): a block of this shape is present; adjacent: two correlated blocks in a row that share
+    columns; notpd in (None,'first','middle','last'); dup in (None,'corr','diag'): a repeated column index in a row of a
+    correlated / an uncorrelated block"""
+    nb = rng.randint(3 if notpd == "middle" else 2 if (adjacent or notpd) else 1, 5)
+    shapes = []
+    for _ in range(nb):
+        d = rng.randint(1, 6)
+        shapes.append((d, 0 if d == 1 or rng.random() < 0.4 else rng.randint(1, d - 1)))
+    if force:
+        shapes[rng.randrange(nb)] = force
+    n = rng.randint(1, 6)
+    k_adj = None
+    if adjacent:
+        k_adj = rng.randrange(nb - 1)
+        for k in (k_adj, k_adj + 1):
+            if shapes[k][1] == 0 and shapes[k] != force:
+                d = rng.randint(2, 6)
+                shapes[k] = (d, rng.randint(1, d - 1))
+        n = max(n, 2)
+    diag = (1, 2, 3, 4) if rng.random() < 0.15 else (1, 2, 4)      # (1,2,4): every operation exact in double
+
+    def val():
+        if rng.random() < 0.04:
+            return 0.0
+        return rng.choice([-4, -3, -2, -1, 1, 2, 3, 4]) * rng.choice([1, 1, 1, 0.5, 0.25])
+
+    rows, blocks = [], []
+    for k, (d, b) in enumerate(shapes):
+        L = gen_L(rng, d, b, diag=diag, off=(-2, 2))
+        if d >= 3 and b >= 2 and rng.random() < 0.4:      # C(1,2) = 0, C(1,3) != 0
+            L[1][0] = 0
+            L[2][0] = L[2][0] or rng.choice([-2, -1, 1, 2])
+        C = llt(L)
+        blocks.append((d, b, C))
+        cols_all = list(range(1, n + 1))
+        if b == 0:
+            for i in range(d):
+                cs = rng.sample(cols_all, 0 if rng.random() < 0.1 else rng.randint(0, n))
+                rows.append([(c, val()) for c in cs])
+            continue
+        cand = list(cols_all)
+        if n >= 2 and rng.random() < 0.5:                   # a column in no row of the block
+            cand.remove(rng.choice(cand))
+        if rng.random() < 0.05:
+            cand = []                                        # a correlated block without any column
+        single = rng.choice(cand) if cand and rng.random() < 0.5 else None
+        single_row = rng.randrange(d)
+        seg = []
+        for i in range(d):
+            avail = [c for c in cand if c != single]
+            cs = rng.sample(avail, 0 if rng.random() < 0.12 else rng.randint(0, len(avail)))
+            if single is not None and i == single_row:
+                cs.insert(rng.randint(0, len(cs)), single)
+            seg.append([(c, val()) for c in cs])
+        others = [c for c in cand if c != single]
+        if others and rng.random() < 0.6:                   # a column L y with sparse y: exact zeros by cancellation
+            c = rng.choice(others)
+            y = [rng.choice([0, 0, 1, -1, 2, 0.5]) for _ in range(d)]
+            y[rng.randrange(d)] = rng.choice([1, -1, 2])
+            a = [sum(L[i][t] * y[t] for t in range(d)) for i in range(d)]
+            for i in range(d):
+                seg[i] = [e for e in seg[i] if e[0] != c]
+                if a[i] != 0 or rng.random() < 0.15:
+                    seg[i].insert(rng.randint(0, len(seg[i])), (c, float(a[i])))
+        if adjacent and k == k_adj + 1 and not ({c for r in seg for c, _ in r} & {c for r in rows[-shapes[k_adj][0]:] for c, _ in r}):
+            prev = [c for r in rows[-shapes[k_adj][0]:] for c, _ in r]
+            if prev:
+                seg[rng.randrange(d)].append((rng.choice(prev), float(rng.choice([1, 2, -3]))))
+        rows += seg
+    if dup or rng.random() < 0.05:                           # a repeated column index inside one row
+        width_of = [b for d, b in shapes for _ in range(d)]
+        cands = [i for i, r in enumerate(rows) if r and (not dup or (width_of[i] >= 1) == (dup == "corr"))]
+        if cands:
+            i = rng.choice(cands)
+            rows[i].insert(rng.randint(0, len(rows[i])), (rng.choice(rows[i])[0], float(rng.choice([1, 2, -3]))))
+        elif dup:
+            return gen_homrun(rng, force, adjacent, notpd, dup)
+    rhs = [rng.randint(-9, 9) * rng.choice([1, 1, 0.5]) for _ in rows]
+    if notpd:
+        k = {"first": 0, "last": nb - 1, "middle": rng.randint(1, max(1, nb - 2))}[notpd]
+        d, b, C = blocks[k]
+        i = rng.randrange(d)
+        C[i][i] = 0 if rng.random() < 0.3 else -C[i][i]
+    return homrun_line(n, rows, rhs, blocks)
+
+
+def homrun_refused_variants(rng, line):
+    """the same problem made undefined in the ways Hom.canRun names"""
+    m, n, rows, rhs, blocks = homrun_parse(line)
+    out = []
+    full = [i for i, r in enumerate(rows) if r]
+    if full:
+        for bad in (0, n + 1):
+            rr = [list(r) for r in rows]
+            i = rng.choice(full)
+            j = rng.randrange(len(rr[i]))
+            rr[i][j] = (bad, rr[i][j][1])
+            out.append(homrun_line(n, rr, rhs, blocks))
+    out.append(homrun_line(n, rows, rhs[:-1], blocks))
+    out.append(homrun_line(n, rows, rhs + [1.0], blocks))
+    if m >= 2:
+        out.append(homrun_line(n, rows[:-1], rhs[:-1], blocks))       # m != sum of block dims
+    return out
+
+
+def homrun_stream(ctx, corr, exe, drv):
+    import random
+    rng = random.Random(f"{ID}-homrun-{ctx.seed}")      # own generator: the inputs of the older streams stay what they were
+    cases = []        # (key, [op lines])
+    corpus = ctx.verif / "corpus" / "C10"
+    if corpus.exists():
+        for f in sorted(corpus.glob("homrun-*.txt")):
+            ls = [l.strip() for l in f.read_text().split("\n") if l.startswith("homrunF ")]
+            if ls:
+                cases.append(("corpus:" + f.name, ls))
+    for rep in range(ctx.size(3, 12)):                   # every block shape
+        for d in range(1, 7):
+            for b in range(0, d):
+                cases.append((f"homrun shape {d} {b} {rep}", [gen_homrun(rng, force=(d, b))]))
+    for rep in range(ctx.size(140, 1500)):
+        cases.append((f"homrun rnd {rep}", [gen_homrun(rng)]))
+    for rep in range(ctx.size(30, 300)):
+        cases.append((f"homrun adj {rep}", [gen_homrun(rng, adjacent=True)]))
+    for rep in range(ctx.size(5, 40)):
+        for pos in ("first", "middle", "last"):
+            cases.append((f"homrun notpd {pos} {rep}", [gen_homrun(rng, notpd=pos)]))
+    for rep in range(ctx.size(6, 40)):
+        cases.append((f"homrun dup {rep}", [gen_homrun(rng, dup=("corr", "diag")[rep % 2], adjacent=rep % 4 == 0)]))
+    for rep in range(ctx.size(3, 20)):
+        cases.append((f"homrun refused {rep}", homrun_refused_variants(rng, gen_homrun(rng))))
+    impl, crashes = run_cases(exe, [c[1] for c in cases])
+    model, mcr = run_cases(drv, [c[1] for c in cases])
+    agg, maxdev, sampled = {}, 0.0, 0
+    for i, (key, lines) in enumerate(cases):
+        corr.count("stream_homrun")
+        sample = None
+        if key.startswith("homrun adj") and sampled < 1 and i not in crashes:
+            sample, sampled = {"stream": "homrun", "ops": [lines[0][:400]], "impl": [impl[i][0][:400]] if impl[i] else []}, 1
+        corr.case(key=key, sample=sample)
+        if i in crashes:
+            corr.fail("C10 harness crashed in Homogenization::run (sanitizer / abort: e.g. capacity of the homogenised matrix "
+                      "exceeded)", {"stream": "homrun", "ops": lines}, HOMRUN_SITE, crashes[i][1])
+            continue
+        if i in mcr or len(impl[i]) != len(lines) or len(model[i]) != len(lines):
+            corr.disagree("homrun", lines, impl[i], model[i], "model driver crashed / answer count differs")
+            continue
+        for l, a, b in zip(lines, impl[i], model[i]):
+            if not lines_equal(a, homrun_norm(b), rtol=1e-9, atol=0.0):
+                corr.disagree("homrun", [l], [a], [b], "Homogenization::run vs Model/Homogenization.lean Hom.run")
+            try:
+                fails, st = homrun_check(l, a, b)
+            except (IndexError, ValueError, KeyError, ZeroDivisionError) as ex:
+                fails, st = [f"answer does not have the expected shape ({type(ex).__name__}: {ex})"], {}
+            for what in fails[:2]:
+                corr.fail("Homogenization::run: " + what, {"stream": "homrun", "ops": [l]}, HOMRUN_SITE, a[:600])
+            maxdev = max(maxdev, st.pop("_maxdev", 0.0))
+            for k, v in st.items():
+                agg[k] = agg.get(k, 0) + v
+            if a.startswith("throw"):
+                corr.count("impl_" + a.split()[1])
+    for k, v in sorted(agg.items()):
+        corr.count("homrun_" + k, v)
+    corr.maxstat("homrun_max_dev_rel", maxdev)
+    ok = max(1, agg.get("ok", 0))
+    need = [("cases_cancellation_zero", 0.10), ("cases_zero_dropped", 0.25), ("cases_fill_in", 0.25),
+            ("cases_single_row_column", 0.15), ("adjacent_corr_shared_cols", 0.10), ("zero_in_band_then_nonzero", 0.05),
+            ("corr_block_missing_column", 0.15), ("cases_capacity_not_filled", 0.25)]
+    for k, share in need:
+        if agg.get(k, 0) < share * ok:
+            corr.inconclusive.append(f"homrun: only {agg.get(k, 0)} of {ok} accepted cases with `{k}` (need {share:.0%})")
+    missing = [f"{d}/{b}" for d in range(1, 7) for b in range(0, d) if not agg.get("shape_%d_%d" % (d, b))]
+    if missing:
+        corr.inconclusive.append("homrun: block shapes dim/band never generated: " + " ".join(missing))
+    for k in ("notpd_first", "notpd_middle", "notpd_last", "refused", "dup_column_in_corr_block"):
+        if not agg.get(k):
+            corr.inconclusive.append(f"homrun: no case with `{k}`")
 
 
 # ------------------------------------------------------------------ Adj level: 4 algorithms vs exact weighted LS
@@ -714,7 +1147,8 @@ def search(ctx, broken, corr):
             payload = {"stream": d["stream"], "ops": d["case"], "impl": d["impl"], "model": d["model"]}
             site = {"idx": "CovMat::operator[]", "bandidx": "BandMat::operator()", "chol": "CovMat::cholDec",
                     "malformed": "CovMat::cholDec", "fwd": "Adj::forwardSubstitution", "active": "Cluster::activeCov",
-                    "scale": "Cluster::scaleCov", "blockdiag": "BlockDiagonal::cholDec"}.get(d["stream"], d["stream"])
+                    "scale": "Cluster::scaleCov", "blockdiag": "BlockDiagonal::cholDec",
+                    "homrun": HOMRUN_SITE}.get(d["stream"], d["stream"])
         out.append(Failure(f"implementation deviates from the verified model (stream {d['stream']}): impl {str(d['impl'])[:120]} "
                            f"vs model {str(d['model'])[:120]}", payload, site, d.get("why", "")))
     return out
@@ -769,6 +1203,20 @@ def replay(ctx, payload):
         mod, _ = run_cases(ctx.driver("drv_cov"), [inp["ops"]])
         for l, a, b in zip(inp["ops"], out[0], mod[0] + [""] * len(out[0])):
             print("op   :", l[:300]); print("impl :", a[:300]); print("model:", b[:300])
+        if inp.get("stream") == "homrun":
+            rc = 1 if crashes else 0
+            for l, a, b in zip(inp["ops"], out[0], mod[0] + [""] * len(out[0])):
+                if not lines_equal(a, homrun_norm(b), rtol=1e-9, atol=0.0):
+                    print("DISAGREE: implementation vs model")
+                    rc = 1
+                try:
+                    fails, _ = homrun_check(l, a, b)
+                except (IndexError, ValueError, KeyError, ZeroDivisionError) as ex:
+                    fails = [f"answer does not have the expected shape ({type(ex).__name__}: {ex})"]
+                for w in fails:
+                    print("ORACLE:", w)
+                    rc = 1
+            return rc
         if inp.get("stream") == "adj":
             return 0 if all(o.startswith("throw") for o in out[0]) else 1
         return 1 if (crashes or out[0] != mod[0]) else 0
